@@ -301,4 +301,235 @@ theorem le_roundHalfEven {x : Rat} {k : Nat} (h : (k : Rat) ≤ x) : k ≤ round
 theorem roundHalfEven_le {x : Rat} {k : Nat} (h : x ≤ (k : Rat)) : roundHalfEven x ≤ k := by
   have := roundHalfEven_mono h; rwa [roundHalfEven_natCast] at this
 
+/-! ### 4. `roundNE`: structure
+
+`rnd q` is the rounded value before the overflow test; `roundNE` is `rnd` plus the
+classification zero / finite / infinite (`roundNE_eq`). -/
+
+/-- exponent of the unit in the last place near `a > 0` -/
+def ulpE (a : Rat) : Int := ulpExp a.num.natAbs a.den
+
+/-- rounding of a non-negative rational to the grid `2^(ulpE a) · ℕ` -/
+def rndPos (a : Rat) : Rat := ((roundHalfEven (a / pow2 (ulpE a)) : Nat) : Rat) * pow2 (ulpE a)
+
+/-- the rounded value (sign-symmetric), without the overflow test -/
+def rnd (q : Rat) : Rat := if q < 0 then -(rndPos (-q)) else rndPos q
+
+theorem natCast_eq_zero {n : Nat} : ((n : Nat) : Rat) = 0 ↔ n = 0 := Rat.natCast_eq_zero_iff
+
+theorem rndPos_eq_zero_iff (a : Rat) : rndPos a = 0 ↔ roundHalfEven (a / pow2 (ulpE a)) = 0 := by
+  unfold rndPos
+  rw [Rat.mul_eq_zero, natCast_eq_zero]
+  have := pow2_ne_zero (ulpE a)
+  grind
+
+theorem rndPos_nonneg (a : Rat) : 0 ≤ rndPos a :=
+  Rat.mul_nonneg Rat.natCast_nonneg (Rat.le_of_lt (pow2_pos _))
+
+theorem roundNE_pos {q : Rat} (hq : 0 < q) :
+    roundNE q = if rndPos q = 0 then .zero false
+      else if rndPos q ≥ pow2 1024 then .inf false else .fin (rndPos q) := by
+  have h0 : q ≠ 0 := by grind
+  have hn : ¬ q < 0 := by grind
+  unfold roundNE
+  rw [if_neg h0]
+  simp only [hn, decide_false, Bool.false_eq_true, if_false, overflowThreshold]
+  simp only [rndPos_eq_zero_iff]
+  rfl
+
+theorem roundNE_neg {q : Rat} (hq : q < 0) :
+    roundNE q = if rndPos (-q) = 0 then .zero true
+      else if rndPos (-q) ≥ pow2 1024 then .inf true else .fin (-(rndPos (-q))) := by
+  have h0 : q ≠ 0 := by grind
+  unfold roundNE
+  rw [if_neg h0]
+  simp only [hq, decide_true, if_true, overflowThreshold]
+  simp only [rndPos_eq_zero_iff]
+  rfl
+
+theorem roundNE_zero : roundNE 0 = .zero false := by
+  unfold roundNE; simp
+
+theorem rndPos_zero : rndPos 0 = 0 := by
+  rw [rndPos_eq_zero_iff, Rat.div_def, Rat.zero_mul]
+  exact roundHalfEven_natCast 0
+
+theorem rnd_zero : rnd 0 = 0 := by
+  unfold rnd; rw [if_neg (by decide)]; exact rndPos_zero
+
+theorem rnd_neg (q : Rat) : rnd (-q) = -(rnd q) := by
+  unfold rnd
+  by_cases h : q < 0
+  · rw [if_pos h, if_neg (by grind), Rat.neg_neg]
+  · by_cases h0 : q = 0
+    · subst h0; simp [rndPos_zero]
+    · rw [if_neg h, if_pos (by grind), Rat.neg_neg]
+
+theorem rnd_of_nonneg {q : Rat} (h : 0 ≤ q) : rnd q = rndPos q := by
+  unfold rnd; rw [if_neg (by grind)]
+
+theorem rnd_abs (q : Rat) : (rnd q).abs = rndPos q.abs := by
+  by_cases h : 0 ≤ q
+  · rw [rnd_of_nonneg h, Rat.abs_of_nonneg h, Rat.abs_of_nonneg (rndPos_nonneg q)]
+  · have h' : q < 0 := by grind
+    rw [Rat.abs_of_nonpos (Rat.le_of_lt h')]
+    unfold rnd; rw [if_pos h', Rat.abs_neg, Rat.abs_of_nonneg (rndPos_nonneg _)]
+
+/-- `roundNE` is `rnd` followed by classification -/
+theorem roundNE_eq (q : Rat) :
+    roundNE q = if q = 0 then .zero false
+      else if rnd q = 0 then .zero (decide (q < 0))
+      else if (rnd q).abs ≥ pow2 1024 then .inf (decide (q < 0)) else .fin (rnd q) := by
+  by_cases h0 : q = 0
+  · subst h0; rw [if_pos rfl]; exact roundNE_zero
+  · rw [if_neg h0, rnd_abs]
+    by_cases hn : q < 0
+    · rw [roundNE_neg hn, Rat.abs_of_nonpos (Rat.le_of_lt hn)]
+      unfold rnd
+      simp only [hn, decide_true, if_true]
+      have : (-(rndPos (-q)) = 0) ↔ rndPos (-q) = 0 := by grind
+      simp only [this]
+    · have hp : 0 < q := by grind
+      rw [roundNE_pos hp, Rat.abs_of_nonneg (Rat.le_of_lt hp), rnd_of_nonneg (Rat.le_of_lt hp)]
+      simp only [hn, decide_false]
+
+/-- the value of a rounded rational, when it does not overflow -/
+theorem toRat_roundNE {q : Rat} (h : (rnd q).abs < pow2 1024) : toRat (roundNE q) = rnd q := by
+  rw [roundNE_eq]
+  by_cases h0 : q = 0
+  · subst h0; rw [if_pos rfl, rnd_zero]; rfl
+  · rw [if_neg h0]
+    by_cases h1 : rnd q = 0
+    · rw [if_pos h1, h1]; rfl
+    · rw [if_neg h1, if_neg (by grind)]; rfl
+
+theorem isFinite_roundNE {q : Rat} (h : (rnd q).abs < pow2 1024) : isFinite (roundNE q) = true := by
+  rw [roundNE_eq]
+  by_cases h0 : q = 0
+  · rw [if_pos h0]; rfl
+  · rw [if_neg h0]
+    by_cases h1 : rnd q = 0
+    · rw [if_pos h1]; rfl
+    · rw [if_neg h1, if_neg (by grind)]; rfl
+
+/-- shape of a non-overflowing result: a signed zero or `.fin (rnd q)` -/
+theorem roundNE_cases {q : Rat} (h : (rnd q).abs < pow2 1024) :
+    (rnd q = 0 ∧ ∃ s, roundNE q = .zero s) ∨ (rnd q ≠ 0 ∧ roundNE q = .fin (rnd q)) := by
+  rw [roundNE_eq]
+  by_cases h0 : q = 0
+  · subst h0; left; exact ⟨rnd_zero, false, by simp⟩
+  · rw [if_neg h0]
+    by_cases h1 : rnd q = 0
+    · left; rw [if_pos h1]; exact ⟨h1, _, rfl⟩
+    · right; rw [if_neg h1, if_neg (by grind)]; exact ⟨h1, rfl⟩
+
+/-! ### 4b. the exponent `ulpE` -/
+
+theorem pos_num_den {a : Rat} (h : 0 < a) :
+    0 < a.num.natAbs ∧ ((a.num.natAbs : Nat) : Rat) / ((a.den : Nat) : Rat) = a := by
+  have hn : 0 ≤ a.num := Rat.num_nonneg.2 (Rat.le_of_lt h)
+  have hz : a.num ≠ 0 := fun hz => by have := Rat.num_eq_zero.1 hz; grind
+  refine ⟨by omega, ?_⟩
+  have e := Rat.num_divInt_den a
+  rw [Rat.divInt_eq_div] at e
+  rw [← Rat.intCast_natCast, ← Rat.intCast_natCast (a.den), Int.natAbs_of_nonneg hn]
+  exact e
+
+/-- binade of `a > 0` and the exponent of its unit in the last place -/
+theorem ulpE_spec {a : Rat} (h : 0 < a) :
+    ∃ L : Int, pow2 L ≤ a ∧ a < pow2 (L + 1) ∧
+      ulpE a = if L - 52 < -1074 then -1074 else L - 52 := by
+  obtain ⟨hn, e⟩ := pos_num_den h
+  have s := floorLog2_spec hn a.den_pos
+  rw [e] at s
+  exact ⟨_, s.1, s.2, by unfold ulpE ulpExp precBits minExp; simp only []; rfl⟩
+
+theorem ulpE_of_bounds {a : Rat} {L : Int} (h1 : pow2 L ≤ a) (h2 : a < pow2 (L + 1)) :
+    ulpE a = if L - 52 < -1074 then -1074 else L - 52 := by
+  have hp : 0 < a := by have := pow2_pos L; grind
+  obtain ⟨hn, e⟩ := pos_num_den hp
+  have u := floorLog2_unique hn a.den_pos (k := L) (by rw [e]; exact h1) (by rw [e]; exact h2)
+  unfold ulpE ulpExp precBits minExp; simp only []; rw [u]; rfl
+
+theorem ulpE_ge (a : Rat) : -1074 ≤ ulpE a := by
+  unfold ulpE ulpExp precBits minExp; simp only []; split <;> omega
+
+theorem ulpE_mono {a b : Rat} (ha : 0 < a) (hab : a ≤ b) : ulpE a ≤ ulpE b := by
+  obtain ⟨La, a1, a2, ea⟩ := ulpE_spec ha
+  obtain ⟨Lb, b1, b2, eb⟩ := ulpE_spec (show 0 < b by grind)
+  have : La < Lb + 1 := pow2_lt_iff.1 (by grind)
+  rw [ea, eb]; split <;> split <;> omega
+
+/-- normal range: the unit in the last place is at most `a / 2^52` -/
+theorem pow2_ulpE_le {a : Rat} (h : pow2 (-1022) ≤ a) : pow2 (ulpE a) ≤ a / pow2 52 := by
+  have hp : 0 < a := by have := pow2_pos (-1022); grind
+  obtain ⟨L, a1, a2, e⟩ := ulpE_spec hp
+  have : -1022 < L + 1 := pow2_lt_iff.1 (by grind)
+  rw [e, if_neg (by omega), pow2_sub, le_div_iff (pow2_pos 52)]
+  have := pow2_pos 52
+  rw [Rat.div_mul_cancel (pow2_ne_zero 52)]; exact a1
+
+/-- subnormal range: the unit in the last place is `2^-1074` -/
+theorem ulpE_subnormal {a : Rat} (h0 : 0 < a) (h : a < pow2 (-1022)) : ulpE a = -1074 := by
+  obtain ⟨L, a1, a2, e⟩ := ulpE_spec h0
+  have : L < -1022 := pow2_lt_iff.1 (by grind)
+  rw [e, if_pos (by omega)]
+
+/-! ### 4c. error of `rndPos` / `rnd` (item 4) -/
+
+theorem rndPos_err {a : Rat} (h : 0 ≤ a) :
+    -(pow2 (ulpE a) / 2) ≤ rndPos a - a ∧ rndPos a - a ≤ pow2 (ulpE a) / 2 := by
+  have hP := pow2_pos (ulpE a)
+  have hx : 0 ≤ a / pow2 (ulpE a) := by
+    rw [le_div_iff hP]; grind
+  obtain ⟨e1, e2⟩ := roundHalfEven_err hx
+  have hxa : a / pow2 (ulpE a) * pow2 (ulpE a) = a := Rat.div_mul_cancel (pow2_ne_zero _)
+  unfold rndPos
+  generalize a / pow2 (ulpE a) = x at *
+  generalize ((roundHalfEven x : Nat) : Rat) = m at *
+  generalize pow2 (ulpE a) = P at *
+  have m1 := Rat.mul_le_mul_of_nonneg_right e1 (Rat.le_of_lt hP)
+  have m2 := Rat.mul_le_mul_of_nonneg_right e2 (Rat.le_of_lt hP)
+  grind
+
+/-- absolute error: half a unit in the last place of `|q|` -/
+theorem rnd_err (q : Rat) : (rnd q - q).abs ≤ pow2 (ulpE q.abs) / 2 := by
+  rw [abs_le_iff]
+  by_cases h : 0 ≤ q
+  · rw [rnd_of_nonneg h, Rat.abs_of_nonneg h]; exact rndPos_err h
+  · have h' : q < 0 := by grind
+    have := rndPos_err (show 0 ≤ -q by grind)
+    rw [Rat.abs_of_nonpos (Rat.le_of_lt h')]
+    unfold rnd; rw [if_pos h']; grind
+
+/-- relative error in the normal range: `|rnd q − q| ≤ |q| / 2^53` -/
+theorem rnd_err_rel {q : Rat} (h : pow2 (-1022) ≤ q.abs) : (rnd q - q).abs ≤ q.abs / pow2 53 := by
+  have e := rnd_err q
+  have u := pow2_ulpE_le h
+  have h53 : pow2 53 = 2 * pow2 52 := pow2_succ 52
+  have hp := pow2_pos 52
+  rw [le_div_iff hp] at u
+  rw [le_div_iff (pow2_pos 53), h53]
+  have := Rat.mul_le_mul_of_nonneg_right e (show 0 ≤ 2 * pow2 52 by grind)
+  grind
+
+/-- absolute error in the subnormal range: `|rnd q − q| ≤ 2^-1075` -/
+theorem rnd_err_sub {q : Rat} (h : q.abs < pow2 (-1022)) : (rnd q - q).abs ≤ pow2 (-1075) := by
+  by_cases h0 : q = 0
+  · subst h0; rw [rnd_zero, Rat.sub_self, Rat.abs_zero]; exact Rat.le_of_lt (pow2_pos _)
+  · have e := rnd_err q
+    rw [ulpE_subnormal (Rat.abs_pos_iff.2 h0) h] at e
+    have := pow2_succ (-1075)
+    rw [show (-1075 : Int) + 1 = -1074 by omega] at this
+    grind
+
+/-- standard model, all magnitudes: `|rnd q − q| ≤ |q| / 2^53 + 2^-1075` -/
+theorem rnd_err_gen (q : Rat) : (rnd q - q).abs ≤ q.abs / pow2 53 + pow2 (-1075) := by
+  have hq : 0 ≤ q.abs / pow2 53 := by
+    rw [le_div_iff (pow2_pos 53)]; have := @Rat.abs_nonneg q; grind
+  have := pow2_pos (-1075)
+  by_cases h : pow2 (-1022) ≤ q.abs
+  · have := rnd_err_rel h; grind
+  · have := rnd_err_sub (show q.abs < pow2 (-1022) by grind); grind
+
 end ScionTime.F64
